@@ -610,11 +610,10 @@ func (w *Writer) writeXRefStream(xRefDict Dict) error {
 			f2 = uint64(entry.Pos)
 			f3 = uint64(entry.Generation)
 		} else {
-			gen := entry.Generation
-			if gen == maxGeneration {
-				gen = 0
-			}
-			f3 = uint64(gen)
+			// A free entry carries its generation number in the third field
+			// (PDF 32000-1:2008, 7.5.8.3); for object 0 this is 65535
+			// (7.5.4), which needs two bytes.
+			f3 = uint64(entry.Generation)
 		}
 		if f2 > maxField2 {
 			maxField2 = f2
